@@ -112,6 +112,8 @@ type sysPlan struct {
 	DsrMs    int        `json:"dsr_ms"`
 	// ClockGrain > 1: fzf's clock is coarse - readings taken within one grain are equal
 	ClockGrain int `json:"clock_grain,omitempty"`
+	// ExecFails: replacing the process (become) fails
+	ExecFails bool `json:"exec_fails,omitempty"`
 	// TmpGone: the directory for temporary files does not exist (any more): every attempt to create one fails
 	TmpGone bool `json:"tmp_gone,omitempty"`
 	Multi   int  `json:"multi"` // 0 none, -1 unlimited, n limit
@@ -168,12 +170,13 @@ type sysRun struct {
 	became     string
 	becameLeft []string // child processes alive and never signalled at the instant fzf replaced itself
 
-	onSettle func(r *sysRun, busy bool, final bool)
-	onExit   func(r *sysRun)
-	behave   func(r *sysRun, p *simos.Proc) (simos.Script, bool)
-	auditAt  []string
-	tmpDir   string
-	oldTmp   string
+	onSettle   func(r *sysRun, busy bool, final bool)
+	execFailed bool // become could not replace the process
+	onExit     func(r *sysRun)
+	behave     func(r *sysRun, p *simos.Proc) (simos.Script, bool)
+	auditAt    []string
+	tmpDir     string
+	oldTmp     string
 
 	tolerateBadOpts bool
 	sigKilled       bool
@@ -407,6 +410,13 @@ func (r *sysRun) start() bool {
 		case "terminal":
 			r.t = args[0].(*Terminal)
 		case "become":
+			if r.plan.ExecFails {
+				// execve fails (E2BIG: the command is longer than the kernel takes, ENOMEM, ...): the call returns
+				r.execFailed = true
+				r.c.count("fault.exec_fails", 1)
+				r.sim.Logf("become %q: exec fails", args[0].(string))
+				return false
+			}
 			r.became = args[0].(string)
 			for _, p := range r.os.AliveUnkilled() {
 				r.becameLeft = append(r.becameLeft, fmt.Sprintf("%d (%q)", p.Pid, p.Command))
@@ -682,9 +692,11 @@ func (r *sysRun) exitAudit() []string {
 	var out []string
 	out = append(out, r.tty.Audit()...)
 	for _, p := range r.os.AliveUnkilled() {
-		if r.sigTermAt > 0 && p.Parent != nil && p.Parent.Killed && p.Parent.Command == r.sigTermCmd {
-			// its own class: fzf did stop the command it had started (the shell), what the shell had started lives on
-			out = append(out, fmt.Sprintf("%sSIGTERM/SIGHUP arrived while the command %q was running in the foreground; fzf killed the shell (pid %d), the shell's own child %d is still running and never killed", grandchildMark, r.sigTermCmd, p.Parent.Pid, p.Pid))
+		if fg := p.Parent != nil && (strings.HasPrefix(p.Parent.Command, "EX") || strings.HasPrefix(p.Parent.Command, "TQ") || strings.HasPrefix(p.Parent.Command, "TR")); r.sigTermAt > 0 && fg && p.Parent.Killed {
+			// its own class: fzf did stop the command it had started (the shell) - the one the signal found
+			// running, or one that the rest of the key's action list started afterwards -, what the shell had
+			// started lives on
+			out = append(out, fmt.Sprintf("%sSIGTERM/SIGHUP arrived while the command %q was running in the foreground; fzf killed the shell (pid %d), the shell's own child %d is still running and never killed", grandchildMark, p.Parent.Command, p.Parent.Pid, p.Pid))
 			continue
 		}
 		out = append(out, fmt.Sprintf("child process %d (%q) still running and never killed", p.Pid, p.Command))
@@ -865,6 +877,12 @@ func (r *sysRun) finish() {
 	}
 	if !r.done && r.became == "" && r.sigQuiet && !r.sigKilled {
 		c.violate("sys.signal_ignored", "SIGINT/SIGTERM was delivered while no command was running, the session came to rest, and fzf is still there; parked=%v\n%s", r.sim.Parked(), blockedStacks())
+	}
+	if !r.done && r.execFailed {
+		// become has closed the interface and handed the terminal back before it tried to replace the process;
+		// when that fails there is nothing to go back to: fzf has to end (with an error), not sit there
+		// with a closed interface until somebody sends it a signal
+		c.violate("sys.limbo", "become(...) could not replace the process (exec failed); the interface is closed, the terminal is in cooked mode (raw=%v) and fzf is still running at rest", r.tty.Raw)
 	}
 	if !r.done && r.became == "" {
 		// responsiveness probe: ctrl-c must end the session. Every malformed escape sequence still queued in the
